@@ -85,6 +85,8 @@ class Ref:
         self.obs = []            # dict(expr, state, handles, export)
         self.subs = []           # dict(obs, ok, unsub)
         self.cutoffs = {}        # handle -> cutoff string
+        self.memos = []          # functions memoised at top level (captured bindfn with one template)
+        self.dynamic_memos = False   # some closure calls weak_memoize_fn itself: indices are not static
 
     # ---- expressions
     def eval(self, e, store, depth=0):
@@ -147,9 +149,18 @@ class Ref:
                 locals_.append(("fold", t[1], cap, t[2], args) if args else ("const", t[2]))
             elif k == "bind":
                 locals_.append(("bind", res(t[1]), t[2], [locals_] + env))
-            elif k in ("cutoff", "export"):
+            elif k == "memocall":
+                locals_.append(self.memo_expr(t[1], cap if t[2] is None else t[2]))
+            elif k in ("cutoff", "export", "memonew"):
                 pass
         return res(r)
+
+    def memo_expr(self, m, key):
+        """the node a memoised function denotes for a key: its body instantiated with the key"""
+        if self.dynamic_memos or m >= len(self.memos):
+            return ("unknown",)
+        body, r = self.memos[m]["templates"][0]
+        return self.instantiate(key, body, r, [])
 
     # ---- ops
     def step(self, line):
@@ -182,6 +193,10 @@ class Ref:
             H.append(("bind", H[op[1]], self.capture(op[2]), []))
         elif k == "mapexport":
             H.append(("unknown",))
+        elif k == "memonew":
+            self.memos.append(self.capture(op[1]))
+        elif k == "memocall":
+            H.append(self.memo_expr(op[1], op[2]))
         elif k == "cutoff":
             self.cutoffs[op[1]] = op[2]
         elif k == "observe":
@@ -244,6 +259,9 @@ class Ref:
                 return ("export", op_(t[1]))
             if k == "bind":
                 return ("bind", op_(t[1]), self.capture(t[2]))
+            if k == "memonew":
+                self.dynamic_memos = True
+                return ("memonew", self.capture(t[1]))
             return t
         return dict(effs=f["effs"], templates=[([ins(t) for t in body], op_(r)) for body, r in f["templates"]])
 
